@@ -331,11 +331,10 @@ func (w *world) attempt(cs *Case, data [][]byte) *Result {
 	select {
 	case <-done:
 	case <-time.After(limit):
-		buf := make([]byte, 256<<10)
-		buf = buf[:runtime.Stack(buf, true)]
+		all := allStacks()
 		mu.Lock()
 		res.Hang = true
-		res.HangStack = reqStacks(string(buf), 6)
+		res.HangStack = reqStacks(all, 6)
 		mu.Unlock()
 	}
 	mu.Lock()
@@ -370,10 +369,13 @@ func (w *world) runCase(cs *Case) *Result {
 					return
 				default:
 				}
+				// what is RETAINED: collect first (objects:bytes also counts garbage not yet swept, whose
+				// amount depends on GC pacing and on the size of the baseline heap, not on the library)
+				runtime.GC()
 				if h := heapNow(s) - base; h > atomic.LoadInt64(&high) {
 					atomic.StoreInt64(&high, h)
 				}
-				time.Sleep(500 * time.Microsecond)
+				time.Sleep(2 * time.Millisecond)
 			}
 		}()
 	}
@@ -402,9 +404,7 @@ func (w *world) runCase(cs *Case) *Result {
 			time.Sleep(time.Millisecond)
 		}
 		if runtime.NumGoroutine() > g0 {
-			buf := make([]byte, 256<<10)
-			buf = buf[:runtime.Stack(buf, true)]
-			for _, g := range splitStacks(string(buf)) {
+			for _, g := range splitStacks(allStacks()) {
 				gid := firstLineOf(g)
 				if i := strings.Index(gid, "["); i > 0 {
 					gid = gid[:i]
@@ -439,6 +439,17 @@ func (w *world) runCase(cs *Case) *Result {
 }
 
 func splitStacks(all string) []string { return strings.Split(all, "\n\n") }
+
+// allStacks: every goroutine's stack, complete (the buffer grows until the dump fits: a dump cut in
+// the middle of a goroutine made the last block unrecognisable in long runs)
+func allStacks() string {
+	for n := 1 << 20; ; n *= 2 {
+		buf := make([]byte, n)
+		if k := runtime.Stack(buf, true); k < n || n >= 256<<20 {
+			return string(buf[:k])
+		}
+	}
+}
 
 func firstLineOf(s string) string {
 	if i := strings.Index(s, "\n"); i >= 0 {
